@@ -21,6 +21,7 @@ type defaultVarMocker struct {
 	targetValue reflect.Value
 	mockValue   interface{}
 	originValue interface{}
+	originSaved bool // originSaved 是否已经保存了首次 mock 之前的原值
 	canceled    bool // canceled 是否被取消
 }
 
@@ -63,7 +64,16 @@ func (m *defaultVarMocker) Apply(callback interface{}) {
 
 // Cancel 取消 mock
 func (m *defaultVarMocker) Cancel() {
-	m.targetValue.Elem().Set(reflect.ValueOf(m.originValue))
+	// 只有 Set/Apply 过才需要还原, 且还原为首次 mock 之前的值
+	if m.originSaved {
+		target := m.targetValue.Elem()
+		if m.originValue == nil {
+			// 原值为 nil 接口, reflect.ValueOf(nil) 无法用于 Set
+			target.Set(reflect.Zero(target.Type()))
+		} else {
+			target.Set(reflect.ValueOf(m.originValue))
+		}
+	}
 	m.canceled = true
 }
 
@@ -80,7 +90,11 @@ func (m *defaultVarMocker) Set(value interface{}) {
 }
 
 func (m *defaultVarMocker) doSet(value interface{}) {
-	m.originValue = m.targetValue.Elem().Interface()
+	// 仅在首次 mock 时保存原值, 多次 Set/Apply 不覆盖
+	if !m.originSaved {
+		m.originValue = m.targetValue.Elem().Interface()
+		m.originSaved = true
+	}
 	d := reflect.ValueOf(value)
 	m.targetValue.Elem().Set(d)
 	m.mockValue = value
